@@ -112,6 +112,9 @@ StatsOK == /\ Ev.stats.allocated = Ev.stats.numtables * meta.T
            /\ Ev.stats.garbage >= 0
 BoundOK == (compacted /\ meta.idle = 0) =>
               60 * Ev.stats.allocated <= 100 * (LiveBytes + 2 * meta.T + Ev.stats.numtables * meta.maxe)
+\* after a completed compaction every table but the one being written (and one spare) holds at least one live entry: a table
+\* full of dead entries only - however little of it is used - has been emptied and given back
+NoDeadTablesOK == (compacted /\ meta.idle = 0) => Ev.stats.numtables <= Ev.stats.length + 2
 \* a store that keeps its recycled tables for a long time re-uses them: after compaction it holds at most the live data plus
 \* the tables that the largest burst of writes between two compactions needed (they are kept, empty, for the next burst)
 BoundIdleOK == (compacted /\ meta.idle # 0) =>
@@ -126,6 +129,7 @@ Obs == /\ Ev.t = "obs" /\ UNCHANGED <<m, d, cstreak, compacted>>
           ELSE IF Want("C12") /\ ~ScanOK THEN Fail("scan incomplete, non-terminating or yields an absent key")
           ELSE IF Want("C20") /\ ~StatsOK THEN Fail("storage accounting is off")
           ELSE IF Want("C20") /\ ~BoundOK THEN Fail("allocation not bounded after compaction")
+          ELSE IF Want("C20") /\ ~NoDeadTablesOK THEN Fail("a table without live entries survived compaction")
           ELSE IF Want("C20") /\ ~BoundIdleOK THEN Fail("recycled tables pile up instead of being re-used")
           ELSE Ok
 
